@@ -1,0 +1,111 @@
+//! Verification hooks (feature `verif`): read-only raw dump of every table.
+
+use {
+  super::*,
+  redb::{Key, Value},
+};
+
+pub type RawTable = Vec<(Vec<u8>, Vec<u8>)>;
+
+pub struct Dump {
+  pub tables: BTreeMap<String, RawTable>,
+  pub savepoints: Vec<u64>,
+}
+
+fn table<K: Key + 'static, V: Value + 'static>(
+  rtx: &redb::ReadTransaction,
+  definition: TableDefinition<K, V>,
+  tables: &mut BTreeMap<String, RawTable>,
+) -> Result {
+  let mut rows = Vec::new();
+  match rtx.open_table(definition) {
+    Ok(table) => {
+      for row in table.iter()? {
+        let (key, value) = row?;
+        rows.push((
+          K::as_bytes(&key.value()).as_ref().to_vec(),
+          V::as_bytes(&value.value()).as_ref().to_vec(),
+        ));
+      }
+    }
+    Err(redb::TableError::TableDoesNotExist(_)) => {}
+    Err(err) => return Err(err.into()),
+  }
+  tables.insert(definition.name().into(), rows);
+  Ok(())
+}
+
+fn multimap<K: Key + 'static, V: Key + 'static>(
+  rtx: &redb::ReadTransaction,
+  definition: MultimapTableDefinition<K, V>,
+  tables: &mut BTreeMap<String, RawTable>,
+) -> Result {
+  let mut rows = Vec::new();
+  match rtx.open_multimap_table(definition) {
+    Ok(table) => {
+      for row in table.iter()? {
+        let (key, values) = row?;
+        let key = K::as_bytes(&key.value()).as_ref().to_vec();
+        for value in values {
+          rows.push((key.clone(), V::as_bytes(&value?.value()).as_ref().to_vec()));
+        }
+      }
+    }
+    Err(redb::TableError::TableDoesNotExist(_)) => {}
+    Err(err) => return Err(err.into()),
+  }
+  tables.insert(definition.name().into(), rows);
+  Ok(())
+}
+
+pub fn dump(index: &Index) -> Result<Dump> {
+  let mut tables = BTreeMap::new();
+
+  let rtx = index.database.begin_read()?;
+
+  multimap(
+    &rtx,
+    LATEST_CHILD_SEQUENCE_NUMBER_TO_COLLECTION_SEQUENCE_NUMBER,
+    &mut tables,
+  )?;
+  multimap(&rtx, SAT_TO_SEQUENCE_NUMBER, &mut tables)?;
+  multimap(&rtx, SCRIPT_PUBKEY_TO_OUTPOINT, &mut tables)?;
+  multimap(&rtx, SEQUENCE_NUMBER_TO_CHILDREN, &mut tables)?;
+  table(
+    &rtx,
+    COLLECTION_SEQUENCE_NUMBER_TO_LATEST_CHILD_SEQUENCE_NUMBER,
+    &mut tables,
+  )?;
+  table(&rtx, GALLERY_SEQUENCE_NUMBERS, &mut tables)?;
+  table(&rtx, HEIGHT_TO_BLOCK_HEADER, &mut tables)?;
+  table(&rtx, HEIGHT_TO_LAST_SEQUENCE_NUMBER, &mut tables)?;
+  table(&rtx, HOME_INSCRIPTIONS, &mut tables)?;
+  table(&rtx, INSCRIPTION_ID_TO_SEQUENCE_NUMBER, &mut tables)?;
+  table(&rtx, INSCRIPTION_NUMBER_TO_SEQUENCE_NUMBER, &mut tables)?;
+  table(&rtx, NUMBER_TO_OFFER, &mut tables)?;
+  table(&rtx, OUTPOINT_TO_RUNE_BALANCES, &mut tables)?;
+  table(&rtx, OUTPOINT_TO_UTXO_ENTRY, &mut tables)?;
+  table(&rtx, RUNE_ID_TO_RUNE_ENTRY, &mut tables)?;
+  table(&rtx, RUNE_TO_RUNE_ID, &mut tables)?;
+  table(&rtx, SAT_TO_SATPOINT, &mut tables)?;
+  table(&rtx, SEQUENCE_NUMBER_TO_INSCRIPTION_ENTRY, &mut tables)?;
+  table(&rtx, SEQUENCE_NUMBER_TO_RUNE_ID, &mut tables)?;
+  table(&rtx, SEQUENCE_NUMBER_TO_SATPOINT, &mut tables)?;
+  table(&rtx, STATISTIC_TO_COUNT, &mut tables)?;
+  table(&rtx, TRANSACTION_ID_TO_RUNE, &mut tables)?;
+  table(&rtx, TRANSACTION_ID_TO_TRANSACTION, &mut tables)?;
+  table(
+    &rtx,
+    WRITE_TRANSACTION_STARTING_BLOCK_COUNT_TO_TIMESTAMP,
+    &mut tables,
+  )?;
+
+  drop(rtx);
+
+  let wtx = index.database.begin_write()?;
+  let mut savepoints = wtx.list_persistent_savepoints()?.collect::<Vec<u64>>();
+  savepoints.sort();
+  wtx.abort()?;
+
+  Ok(Dump { tables, savepoints })
+}
